@@ -325,6 +325,18 @@ impl Process {
                 options.set(key, value.clone());
             }
 
+            // what the action needs for itself (the code and message of an error, the target
+            // of a back) is not an output of the act: it stays with the action
+            for key in [
+                consts::ACT_ERR_CODE,
+                consts::ACT_ERR_MESSAGE,
+                consts::ACT_SUBFLOW_TO,
+            ] {
+                if let Some(value) = action.options.get_value(key) {
+                    options.set(key, value.clone());
+                }
+            }
+
             // retset the options by rets defination
             action.options = options;
         }
